@@ -34,6 +34,16 @@ func edgesMatchingD(b *ana.Builder, patterns []string, depth int) []ana.CondEdge
 			out = append(out, ce)
 			continue
 		}
+		// a condition computed by a single-exit helper (ok := below(x, n)): the helper's result term in its place
+		if x, ch := ana.ExpandCalls(b.P, ce.Lit); ch {
+			if x.Op == "un" && x.Name == "!" {
+				x = ana.Negate(x.Args[0])
+			}
+			if ana.LitMatches(x, patterns...) {
+				out = append(out, ce)
+				continue
+			}
+		}
 		if depth >= 2 {
 			continue
 		}
@@ -695,8 +705,14 @@ func exitsWith(hb *ana.Builder, o outcome) []ana.Exit {
 		switch o.kind {
 		case "nil":
 			may = t.Is("nil") || !definitelyNonNil(t)
+			if may && !t.Is("nil") && guardedBy(hb, e.Instr.Block(), "!=", t) {
+				may = false // returned only after it was tested non-nil
+			}
 		case "nonnil":
 			may = !t.Is("nil")
+			if may && guardedBy(hb, e.Instr.Block(), "==", t) {
+				may = false // returned only after it was tested nil
+			}
 		case "true":
 			may = t.String() != "false"
 		case "false":
@@ -707,6 +723,19 @@ func exitsWith(hb *ana.Builder, o outcome) []ana.Exit {
 		}
 	}
 	return out
+}
+
+// guardedBy: every path to blk passes an edge on which `t op nil` holds.
+func guardedBy(hb *ana.Builder, blk *ssa.BasicBlock, op string, t *ana.Term) bool {
+	var es []ana.Edge
+	want := t.String()
+	for _, ce := range hb.CondEdges() {
+		l := ce.Lit
+		if l.Op == "bin" && l.Name == op && len(l.Args) == 2 && l.Args[1].Op == "nil" && l.Args[0].String() == want {
+			es = append(es, ce.Edge)
+		}
+	}
+	return mustPass(hb.Fn, blk, es)
 }
 
 func definitelyNonNil(t *ana.Term) bool {
@@ -1025,6 +1054,36 @@ func deepCallTerms(c *Ctx, b *ana.Builder) []*ana.Term {
 				continue
 			}
 			call := stripObj(t)
+			if call.Op != "call" || len(call.Args) != len(h.Params) {
+				continue
+			}
+			seen[h] = true
+			rec(boundBuilderP(c.P, call), depth+1)
+			delete(seen, h)
+		}
+	}
+	rec(b, 0)
+	return out
+}
+
+// deepEdges lists the condition edges of b's function and, with parameters
+// bound to the arguments, of the repository helpers it calls (two levels): a
+// run of checks moved into a helper tests the same literals.
+func deepEdges(c *Ctx, b *ana.Builder) []ana.CondEdge {
+	var out []ana.CondEdge
+	var rec func(b *ana.Builder, depth int)
+	seen := map[*ssa.Function]bool{b.Fn: true}
+	rec = func(b *ana.Builder, depth int) {
+		out = append(out, b.CondEdges()...)
+		if depth >= 2 {
+			return
+		}
+		for _, ci := range ana.Calls(b.Fn) {
+			h := ana.StaticRepoCallee(ci.Common())
+			if h == nil || seen[h] || h.Blocks == nil {
+				continue
+			}
+			call := stripObj(b.CallTermAt(ci))
 			if call.Op != "call" || len(call.Args) != len(h.Params) {
 				continue
 			}
